@@ -46,8 +46,8 @@ theorem outer_commands_local (n : Node) (cwd : String) (words : List String) (b 
   simpa [Atom.flagOk] using this
 
 /-- … and every raw text (here-documents, `${…}` arguments, `$((…))`, case patterns …) -/
-theorem outer_texts_local (n : Node) (cwd : String) (s : Option String) (c : String) (r : Bool)
-    (ha : Atom.text s c r ∈ flat w.syn n cwd false) : r = false := by
+theorem outer_texts_local (n : Node) (cwd : String) (ps : Bool) (s : Option String) (c : String) (r : Bool)
+    (ha : Atom.text ps s c r ∈ flat w.syn n cwd false) : r = false := by
   have := walk_flag_constant w n cwd false _ ha
   simpa [Atom.flagOk] using this
 
@@ -75,7 +75,7 @@ theorem remote_redirect_still_walked (op : String) (t : Word) (rs : List Redir) 
 
 theorem remote_heredoc_still_scanned (content : String) (rs : List Redir) (cwd : String) :
     flatRedirects w.syn (.heredoc false content :: rs) cwd true
-      = .text (some content) cwd true :: flatRedirects w.syn rs cwd true := by
+      = .text false (some content) cwd true :: flatRedirects w.syn rs cwd true := by
   simp [flatRedirects]
 
 /-! ### (3) rules in remote mode -/
